@@ -42,8 +42,20 @@ func (engine) Decode(raw json.RawMessage) (any, error) {
 // handlers only on lambda nodes (a handler on a pass-through / sub graph is a typing
 // question, property C07), mapping targets among the two fields of WS.
 func normalize(c *Case) {
+	staticField := map[string]string{} // one static field per node: the order in which Go meets several paths of one node is not observable
 	for i := range c.Calls {
 		k := &c.Calls[i]
+		if c.FE == "workflow" && k.Op == "setstatic" {
+			if len(k.Fields) == 0 {
+				k.Fields = []string{"B"}
+			}
+			k.Fields = k.Fields[:1]
+			if f, ok := staticField[k.To]; ok {
+				k.Fields[0] = f
+			} else {
+				staticField[k.To] = k.Fields[0]
+			}
+		}
 		if k.Kind != "lambda" {
 			k.NeedState = false
 		}
@@ -111,7 +123,7 @@ func coqItems(items []Item) string {
 	return lib.CoqList(out)
 }
 
-func coqCall(fe string, c *Call, ord []string) string {
+func coqCall(fe string, c *Call, ord, sord []string) string {
 	switch fe + "/" + c.Op {
 	case "graph/addnode":
 		return lib.CoqApp("GAddNode", lib.CoqStr(c.Key), coqKind(c.Kind), lib.CoqBool(c.NeedState), lib.CoqBool(c.NodeKeyOpt))
@@ -142,10 +154,16 @@ func coqCall(fe string, c *Call, ord []string) string {
 		return lib.CoqApp("WAddInput", lib.CoqStr(c.To), lib.CoqStr(c.From), k, lib.CoqStrList(c.Fields))
 	case "workflow/addbranch":
 		return lib.CoqApp("WAddBranch", lib.CoqStr(c.From), lib.CoqStrList(c.Ends))
+	case "workflow/setstatic":
+		f := ""
+		if len(c.Fields) > 0 {
+			f = c.Fields[0]
+		}
+		return lib.CoqApp("WSetStatic", lib.CoqStr(c.To), lib.CoqStr(f))
 	case "workflow/addend":
 		return lib.CoqApp("WAddEnd", lib.CoqStr(c.From), lib.CoqStrList(c.Fields))
 	case "workflow/compile":
-		return lib.CoqApp("WCompile", coqOpt(c), lib.CoqStrList(ord))
+		return lib.CoqApp("WCompile", coqOpt(c), lib.CoqStrList(ord), lib.CoqStrList(sord))
 	}
 	panic("harness: cannot print " + fe + "/" + c.Op)
 }
@@ -163,7 +181,7 @@ func coqObs(o CallObs) string {
 func coqCase(c *Case, obs []CallObs, intact bool) string {
 	pairs := make([]string, len(c.Calls))
 	for i := range c.Calls {
-		pairs[i] = lib.CoqPair(coqCall(c.FE, &c.Calls[i], obs[i].Ord), lib.CoqPair(coqObs(obs[i]), lib.CoqPair(lib.CoqStrList(obs[i].Gone), lib.CoqStrList(obs[i].New))))
+		pairs[i] = lib.CoqPair(coqCall(c.FE, &c.Calls[i], obs[i].Ord, obs[i].SOrd), lib.CoqPair(coqObs(obs[i]), lib.CoqPair(lib.CoqNList(obs[i].Gone), lib.CoqNList(obs[i].New))))
 	}
 	ctor := map[string]string{"graph": "CaseG", "chain": "CaseC", "workflow": "CaseW"}[c.FE]
 	return lib.CoqApp(ctor, lib.CoqBool(c.State), lib.CoqList(pairs), lib.CoqBool(intact))
